@@ -299,3 +299,16 @@ META["trusted_base"] = list(META.get("trusted_base", [])) + [
     "specs/C13/suspend.c: coroutine_self::yield / interruption_point / scheduler_base::schedule_thread / PIKA_THROWS_IF as stubs; the "
     "request flag of the running task as one ghost bool that another thread may set while the task is suspended",
     "unit c02.timed.suspend_until is the C02 unit of the same name (specs/C02/timed_suspend.c) with its trusted base"]
+
+# ---- C12 unit reused (added after seeded change C13-7 was missed): join()/~jthread register an exit callback on the target's
+# ---- thread_data, which is RECYCLED: add_thread_exit_callback refuses when ran_exit_funcs_ is set, so "join waits for the
+# ---- thread function" needs rebind_base to hand out a descriptor whose exit-callback bookkeeping is that of a fresh one
+_c12 = {"__name__": "c12_reuse"}
+exec(compile(open("/verif/specs/C12/spec.py").read(), "/verif/specs/C12/spec.py", "exec"), _c12)
+for _u in _c12["UNITS"]:
+    if _u.name == "recycle.rebind_base":
+        _u.name = "c12." + _u.name
+        _u.template = "../C12/" + _u.template
+        UNITS.append(_u)
+META["trusted_base"] = list(META.get("trusted_base", [])) + [
+    "unit c12.recycle.rebind_base is the C12 unit of the same name (specs/C12/recycle.c) with its trusted base"]
